@@ -297,30 +297,31 @@ theorem length_getrange (p : Plane) (b : Rect) : (getrange p b).length = cellCou
     (by intro gy _; simp [length_pyRange])]
   rw [length_pyRange, Nat.mul_comm]
 
-/-- The regenerated cell-count test of `Plane._cells` (`max(0, stop - start)` products against `MAXCELLS`)
-is the comparison of the closed-form `cellCount` with `PLANE_MAXCELLS`. -/
-theorem cells_over_iff (a b c d : Int) :
-    plane_cells_over a b c d = true ↔ PLANE_MAXCELLS < (b - a).toNat * (d - c).toNat := by
-  simp only [plane_cells_over, PLANE_MAXCELLS_I, PLANE_MAXCELLS, decide_eq_true_eq, gt_iff_lt]
+/-- The regenerated cell-count test of `Plane._cells` (`max(0, stop - start)` products against `MAXCELLS`):
+a box that is NOT sent to the overflow list has at most `MAXCELLS` cells.  (Deliberately only this direction:
+it is what the theorems need, and it also holds for the behaviour-preserving variant `>=` of the test.) -/
+theorem cells_over_false {a b c d : Int} (h : plane_cells_over a b c d = false) :
+    (b - a).toNat * (d - c).toNat ≤ PLANE_MAXCELLS := by
+  simp only [plane_cells_over, PLANE_MAXCELLS_I] at h
+  have h := of_decide_eq_false h
   rw [show max (0 : Int) (b - a) = ((b - a).toNat : Int) by omega,
-      show max (0 : Int) (d - c) = ((d - c).toNat : Int) by omega, ← Int.natCast_mul]
+      show max (0 : Int) (d - c) = ((d - c).toNat : Int) by omega, ← Int.natCast_mul] at h
+  simp only [PLANE_MAXCELLS]
   omega
-
-theorem cells?_def (p : Plane) (b : Rect) :
-    cells? p b = if PLANE_MAXCELLS < cellCount p b then none else some (getrange p b) := by
-  obtain ⟨x0, y0, x1, y1⟩ := b
-  simp only [cells?, plane_clamp, cellCount, cells_over_iff]
-  split <;> rename_i h <;> simp only [h, if_true, if_false]
 
 theorem cells?_some {p : Plane} {b : Rect} {ks : List Key} (h : cells? p b = some ks) :
     ks = getrange p b ∧ ks.length ≤ PLANE_MAXCELLS := by
-  rw [cells?_def] at h
-  split at h
-  · simp at h
-  · rename_i hle
-    simp only [Option.some.injEq] at h
+  obtain ⟨x0, y0, x1, y1⟩ := b
+  cases hc : plane_cells_over (rStart (min (max p.x0 x0) p.x1) p.gridsize) (rStop (max (min p.x1 x1) p.x0) p.gridsize)
+      (rStart (min (max p.y0 y0) p.y1) p.gridsize) (rStop (max (min p.y1 y1) p.y0) p.gridsize) with
+  | true => simp [cells?, plane_clamp, hc] at h
+  | false =>
+    simp only [cells?, plane_clamp, hc, Bool.false_eq_true, if_false, Option.some.injEq] at h
     subst h
-    exact ⟨rfl, by rw [length_getrange]; omega⟩
+    refine ⟨rfl, ?_⟩
+    rw [length_getrange]
+    simp only [cellCount]
+    exact cells_over_false hc
 
 /-- **Bounded work.**  No operation (`add`, `remove`, `find` on a box `b`) enumerates more than `MAXCELLS`
 grid cells, whatever the coordinates of the box and of the plane are. -/
@@ -380,7 +381,7 @@ theorem cells?_congr {p p' : Plane} (h : p'.gridsize = p.gridsize ∧ p'.x0 = p.
     (b : Rect) : cells? p' b = cells? p b := by
   have hg := getrange_congr h b
   obtain ⟨h1, h2, h3, h4, h5⟩ := h
-  rw [cells?_def, cells?_def]; unfold cellCount; rw [hg, h1, h2, h3, h4, h5]
+  unfold cells?; rw [hg, h1, h2, h3, h4, h5]
 
 
 theorem remove_ok (p : Plane) (o : PObj) (h : o.id ∈ p.objs) : (remove p o).2 = true := by
